@@ -40,7 +40,7 @@ RULE = ("real projects of 0-12 jobs over textually colliding universes (1/10/100
         "{job.id}, tabulated callables chosen to collide} x schema in {None, schema string derived from the "
         "layout, tabulated callable (exact / one wrong / type-confused / partial)} x optional pre-existing jobs "
         "in the importing project (then also user copy functions failing with EXDEV / EIO / ENOSPC) x empty sub-directories in ~10% of the jobs x a few paths that leave the target or "
-        "are not in normal form ('../y', 'd/../../y', absolute, 'c//d', 'b/.', ''), 8% of the exports placed inside the importing project's directory under a name that starts like its workspace; an import under an inexact schema that returns must have filed every job under the hash of the state point it holds; plus direct cases for the schema-string parser and normpath/join; distinct = "
+        "are not in normal form ('../y', 'd/../../y', absolute, 'c//d', 'b/.', ''), in 15% of the directory round trips one data file is a relative symbolic link leaving the job directory, 8% of the exports placed inside the importing project's directory under a name that starts like its workspace; an import under an inexact schema that returns must have filed every job under the hash of the state point it holds; plus direct cases for the schema-string parser and normpath/join; distinct = "
         "distinct (state points, target, path, schema, pre) ; non-trivial = at least one job")
 MODELLED = ["zipfile / tarfile / shutil.copytree / os.walk byte level behaviour (only the member list and the "
             "copied file set are compared)",
@@ -385,6 +385,9 @@ def make_case(rng, n=None, target=None):
     case = {"k": "rt", "jobs": jobs, "target": target, "path": path, "schema": schema, "pre": pre}
     if rng.random() < 0.08:
         case["where"] = "beside-ws"
+    if target == "dir" and path["kind"] != "none" or target == "dir" and rng.random() < 0.5:
+        if rng.random() < 0.15 and any(j["files"] for j in jobs):
+            case["link"] = True
     return case
 
 
@@ -397,6 +400,10 @@ def fixed_cases():
         yield {"k": "rt", "jobs": J({"a": 1}), "target": t, "path": {"kind": "none"}, "schema": {"kind": "none"}, "pre": []}
         yield {"k": "rt", "jobs": J({"a": 1}, {"a": 2}), "target": t, "path": {"kind": "none"}, "schema": {"kind": "none"},
                "pre": [], "where": "beside-ws"}
+        if t == "dir":
+            yield {"k": "rt", "jobs": [{"sp": {"a": 1}, "doc": None, "files": {"ref.dat": "r"}},
+                                       {"sp": {"a": 2}, "doc": None, "files": {"sub/x.txt": "x"}}],
+                   "target": t, "path": {"kind": "none"}, "schema": {"kind": "none"}, "pre": [], "link": True}
         yield {"k": "rt", "jobs": J(), "target": t, "path": {"kind": "none"}, "schema": {"kind": "none"}, "pre": []}
     for t in ["dir", "zip", "tar"]:
         yield {"k": "rt", "jobs": J({"a": 1}, {"a": "1"}, {"a": 2}), "target": t, "path": {"kind": "none"},
@@ -857,6 +864,14 @@ def run_rt(case, ctx):
                     f.write(content)
             for dname in j.get("dirs", []):
                 os.makedirs(job.fn(dname), exist_ok=True)
+            if case.get("link") and j["files"]:
+                # one data file of the job is a relative symbolic link that leaves the job directory (a shared
+                # reference file): every reader sees the same bytes, and so must the exported / re-imported job
+                p0 = sorted(j["files"])[0]
+                shared = os.path.join(src.path, "shared", "ref%d.dat" % i)
+                os.makedirs(os.path.dirname(shared), exist_ok=True)
+                os.replace(job.fn(p0), shared)
+                os.symlink(os.path.relpath(shared, os.path.dirname(job.fn(p0))), job.fn(p0))
             by_index[i] = job.id
         src = signac.Project(src.path)           # fresh handle: no warm caches
         jobs = list(src)                          # listing order = what export sees
@@ -946,6 +961,8 @@ def run_rt(case, ctx):
         tags.append("target=" + kind)
         if case.get("where"):
             tags.append("target-place=" + case["where"])
+        if case.get("link"):
+            tags.append("job-file-is-a-link-leaving-the-job")
         tags.append("path=" + path["kind"])
         tags.append("schema=" + case["schema"]["kind"])
         tags.append("njobs=%d" % min(len(jobs), 6))
@@ -1218,7 +1235,7 @@ def run_rt(case, ctx):
         if jobs:
             keyv = [sorted(tagged(sp) for sp in sps.values()), kind, json.dumps(case["path"], sort_keys=True),
                     json.dumps({k: v for k, v in case["schema"].items() if k != "layout"}, sort_keys=True), case.get("pre", []),
-                    case.get("where")]
+                    case.get("where"), case.get("link")]
         if oracle:
             tags.append("oracle-fail")
         return {"model": model, "impl": impl, "oracle": oracle, "tags": tags, "key": keyv, "info": info}
